@@ -7,9 +7,10 @@
 (* operation of the history (every prefix of a history is a case of its own). *)
 (* File (PV_CASES): [items, sides, cases]                                     *)
 (*   items : interned records - declaration heads [p,s,cls,ifc,arr,const,acc],*)
-(*           node kinds [p,k], uses [p,s,r,i,nm,tgt], node objects [o,cat]    *)
-(*   sides : [t (id of the written text, 0 = not written), D, N, u, n (item   *)
-(*           indexes), s (identities of the symbol objects in the tables)]    *)
+(*           node kinds [p,k], uses [p,s,r,i,nm,tgt], node objects [o,cat],   *)
+(*           table membership [o,tp]                                          *)
+(*   sides : [t (id of the written text, 0 = not written), D, N, u, n, st     *)
+(*           (item indexes), s (identities of the symbol objects in tables)]  *)
 (*   cases : [p, h, pre, post] with pre/post = [O, C (side indexes), eq, ref] *)
 (* Every case ends in one terminal state; a failing clause prints a VERDICT   *)
 (* line (clause + witness), an outcome that satisfies the clauses but is not  *)
@@ -20,8 +21,9 @@ VARIABLES prog, m, pm, hist, lastref      \* TreeCopy's variables (not used)
 VARIABLES cid, verdict
 T == INSTANCE TreeCopy WITH RepointRoles <- {"ref", "loopvar", "call", "ret", "kind",
                                               "shape", "init", "ifc"},
-                            MaxEdits <- 0, MaxEditsFile <- 0, InsertFront <- FALSE,
-                            NewNames <- {}, OpKinds <- {}, ProgIds <- {}, SimMode <- FALSE
+                            MaxEdits <- 0, MaxEditsFile <- 0, Wide <- FALSE,
+                            NewNames <- {}, OpKinds <- {}, ProgIds <- {}, SimMode <- FALSE,
+                            LoopVarByName <- FALSE
 
 File  == JsonDeserialize(IOEnv.PV_CASES)
 Items == File.items
@@ -33,7 +35,7 @@ Side(k) == LET j == File.sides[k]
                n == ItemSet(j.n)
            IN [tw |-> j.t > 0, t |-> j.t, D |-> ItemSet(j.D), N |-> ItemSet(j.N),
                u |-> u, U |-> T!Strip(u), n |-> n, no |-> {x.o : x \in n},
-               s |-> ToSet(j.s)]
+               s |-> ToSet(j.s), st |-> ItemSet(j.st)]
 \* every distinct side observation is converted once (TLC evaluates a function
 \* constructor lazily, per application; comparing it forces and caches the table)
 Sides == LET f == [k \in DOMAIN File.sides |-> Side(k)]
